@@ -72,11 +72,18 @@ def own_proto_reply(kind, payload):
     return True
 
 
-def judge_app(ctx, lab, kind, m, tr, cfg, peer):
-    """Reply-typed application message m over transport tr."""
+WELL_KNOWN = {"dns": [53, 5353, 5355, 137], "stun": [3478, 3479, 5349, 19302], "smb": [445, 139], "rpc": [111, 2049, 635],
+              None: [7, 9, 13, 17, 19, 37, 69, 123, 161, 500, 1900, 4500]}
+
+
+def judge_app(ctx, lab, kind, m, tr, cfg, peer, dp=None):
+    """Reply-typed application message m over transport tr (to a random port, the protocol's well-known ports, or a
+    small-service port)."""
     rng = ctx.rng
     ident = lab.identified(m, tr)
-    a = lab.ask(m, tr)
+    if dp is None and rng.random() < 0.4:
+        dp = rng.choice(WELL_KNOWN.get(kind, []) + WELL_KNOWN[None])
+    a = lab.ask(m, tr, dp=dp)
     ctx.stats["app_%s_%s" % (kind, tr)] += 1
     rep = a.rep
     if rep is not None:
@@ -169,7 +176,7 @@ def handmade(ctx, cfg, lab, peer):
         judge_app(ctx, lab, "stun", m, "udp", cfg, peer)
         # on a TCP flow that is already identified as STUN
         e = gen.endp(rng, cfg, rng.random() < 0.5)
-        f = Flow(ctx, e, gen.rnd_port(rng), gen.rnd_port(rng))
+        f = Flow.fresh(ctx, e)
         if f.syn() is not None:
             first, _t, _k = stun.gen_request(rng, "magic_long")
             if stun.is_stun_response(app_payload(f.data(first))):
@@ -198,9 +205,17 @@ def handmade(ctx, cfg, lab, peer):
     # ---- RPC replies --------------------------------------------------------------------------------------------------------
     for _ in range(4):
         xid = (rng.choice([0x01, 0x7A, 0x99]) << 24) | rng.getrandbits(24)
-        body = struct.pack("!IIIIII", xid, 1, 0, 0, 0, rng.choice([0, 1, 2, 3])) + rng.choice([b"", struct.pack("!II", 2, 4), struct.pack("!I", 111)])
-        judge_app(ctx, lab, "rpc", body, "udp", cfg, peer)
-        judge_app(ctx, lab, "rpc", rpc.record(body), "tcp", cfg, peer)
+        if rng.random() < 0.5:
+            xid = (xid & 0xFFFF7FFF) | (rng.getrandbits(1) << 15)       # third byte's top bit: the datagram does / does not read as a DNS response
+        # accepted replies with results of every size (GETPORT: one word; NFS / mount results: many small words), denied replies
+        results = rng.choice([b"", struct.pack("!II", 2, 4), struct.pack("!I", 111), bytes(16), struct.pack("!IIII", 0, 0, 0, 0) + bytes(rng.randrange(0, 64) & ~3),
+                              b"".join(struct.pack("!I", rng.choice([0, 0, 1, 2, 4, 8])) for _x in range(rng.randrange(4, 24)))])
+        body = struct.pack("!IIIIII", xid, 1, 0, 0, 0, rng.choice([0, 0, 0, 1, 2, 3])) + results
+        if rng.random() < 0.15:
+            body = struct.pack("!IIII", xid, 1, 1, rng.choice([0, 1])) + struct.pack("!II", 2, 4)[:rng.choice([4, 8])]    # MSG_DENIED
+        wk = rng.choice([None, None, 111, 111, 2049, 53, 7, 9, 13, 19, 37, 123, 137, 161, 500, 1900, 5353])
+        judge_app(ctx, lab, "rpc", body, "udp", cfg, peer, dp=wk)
+        judge_app(ctx, lab, "rpc", rpc.record(body), "tcp", cfg, peer, dp=wk)
         c = rpc.call(xid, 100000, 2, 3)
         if lab.ask(c, "udp").rep is not None:
             ctx.nontrivial("rpc", body)
@@ -218,11 +233,16 @@ def bounced(ctx, cfg, peer):
         k = kinds.get(tag)
         if k and r.kind == "R":
             got.append((k, r.reply))
-    workloads.reply_mix(ctx, cfg, rounds=1, on_reply=on_reply)
+    workloads.reply_mix(ctx, cfg, rounds=1, on_reply=on_reply, own_src=0.0)
     for k, rep in got:
         # what the bounced message *is* is decided by its content, not by the request that elicited it (a DNS query that
         # is also an RFC 3489 STUN request is answered by the STUN responder)
-        pl0 = pkt.parse(rep).get("data")
+        a0 = pkt.parse(rep)
+        if "v" in a0 and a0.src == a0.dst and a0.get("sp") == a0.get("dp"):
+            # fully symmetric tuple: the bounced reply is indistinguishable from the client's own next segment on that flow
+            ctx.stats["bounce_symmetric_skipped"] += 1
+            continue
+        pl0 = a0.get("data")
         if k in ("dns", "stun", "smb", "rpc", "http") and pl0:
             if stun.is_stun_response(pl0):
                 k = "stun"
